@@ -177,7 +177,8 @@ def run_history(hist, with_state):
                         if isinstance(key, str) and isinstance(data, bytes):
                             unprot[op[2]].discard(
                                 ref.digest(STORES[op[2]][1], data) + (".dir" if key.endswith(".dir") else ""))
-                            unprot[op[1]].discard(key)  # hard-linked: protected together
+                            if STORES[op[2]][0] == "local":
+                                unprot[op[1]].discard(key)  # hard-linked: protected together
                 for s, (kind, hn) in STORES.items():
                     v, _n, snap = audit_store(odbs[s].path, kind, hn, s, unprot[s])
                     viol.extend((sig, f"after step {i} {op} of {hist}: {d}") for sig, d in v)
